@@ -175,7 +175,11 @@ class LibsModel:
             return AV(ty='generator', elem=AV(ty='tuple', elts=[el] * n), deps=d)
         if qual == 'collections.Counter':
             out = AV(ty='dict', counter=True, deps=d, fresh=True, elem=AV(ty='int', mono=Mono.atom('count')))
-            if args:
+            if args and args[0].ty == 'dict':
+                # Counter(mapping): the counts are taken over from the mapping, nothing is added up
+                out = out.w(keyelem=args[0].keyelem, counted=args[0], overwrite=args[0].overwrite, accum=args[0].accum,
+                            elem=args[0].elem if args[0].elem is not None else out.elem)
+            elif args:
                 out = out.w(keyelem=self.iter_item(interp, st, args[0], None, None), counted=args[0], accum=True)
             else:
                 out = out.w(empty_init=True)
@@ -402,7 +406,10 @@ class LibsModel:
                 return AV(ty='ndarray', geo=('FRAC', 'N'), axes=('atom', XYZ), deps=d, store='attr:Trajectory.base_positions',
                           prov=frozenset({'traj.base_positions'}))
             if attr == 'coords_are_displacement':
-                return AV(ty='bool', deps=d)
+                mode = heap.get('#mode')
+                if mode is not None and has_const(mode) and cval(mode) in ('pos', 'disp'):
+                    return const(cval(mode) == 'disp').w(deps=d, modeflag_of=base.oid)
+                return AV(ty='bool', deps=d, modeflag_of=base.oid)
             if attr == 'lattice':
                 return AV(ty='ndarray', geo=('LATMAT', 'LAT'), deps=d, store='attr:Trajectory.lattice')
             if attr == 'lattices':
